@@ -278,7 +278,7 @@ def sam_tags(draw, max_tags=3, reserved=()):
 
 @st.composite
 def raw_gfa(draw, max_nodes=7, max_links=12, seq_mode="seq", link_tags=True, seg_tags=True, other_lines=True,
-            id_pool=None, max_ln=10):
+            id_pool=None, max_ln=10, soft_masked=False, no_final_newline_ok=False):
     """Returns {"segments": [[id, seq, [tags]]], "links": [[a,oa,b,ob,overlap,[tags]]], "text": str}."""
     rnd = random.Random(draw(st.integers(0, 2**30)))
     pool = id_pool or ["a", "b", "c", "s1", "s2", "s10", "n3", "0", "x_y"]
@@ -292,6 +292,9 @@ def raw_gfa(draw, max_nodes=7, max_links=12, seq_mode="seq", link_tags=True, seg
             seq = "*"
         else:
             seq = "*" if draw(st.booleans()) else random_seq(rnd, draw(st.integers(1, max_ln)))
+        if soft_masked and seq != "*" and draw(st.integers(0, 3)) == 0:
+            k = draw(st.integers(0, len(seq)))
+            seq = seq[:k] + seq[k:].lower()  # soft-masked bases are part of the sequence
         segs.append([i, seq, draw(sam_tags()) if seg_tags else []])
     links = []
     seen = {}
@@ -328,4 +331,7 @@ def raw_gfa(draw, max_nodes=7, max_links=12, seq_mode="seq", link_tags=True, seg
             ])))
     order = draw(st.permutations(range(len(lines))))
     lines = [lines[k] for k in order]
-    return {"segments": segs, "links": links, "text": "\n".join(lines) + "\n"}
+    text = "\n".join(lines) + "\n"
+    if no_final_newline_ok and draw(st.integers(0, 5)) == 0:
+        text = text[:-1]
+    return {"segments": segs, "links": links, "text": text}
